@@ -166,13 +166,13 @@ def replay_l201(cfg, m):
     return bool(fails), 'ops=%s: %s' % (ops, fails[:2])
 
 
-R.add('L20.1', l201, lambda tier: [dict(server=s, nops=(3 if tier == 'quick' else 5)) for s in (True, False)],
+R.add('L20.1', l201, lambda tier: [dict(server=s, nops=(4 if tier == 'quick' else 5)) for s in (True, False)],
       replay=replay_l201,
-      desc='every sequence of <= 3 (thorough 5) register/unregister/dispatch operations over 3 resources (class and string '
+      desc='every sequence of <= 4 (thorough 5) register/unregister/dispatch operations over 3 resources (class and string '
            'annotations, one conflicting) and 3 message classes, both dispatchers, against a reference map',
       expect=['sequence explored', 'exactly one handler is invoked', 'unknown class raises DispatchError',
               'registering a second handler for a class is refused (and only then)'],
-      bounds='<= 3 (thorough 5) operations from the empty dispatcher; alphabet of 9 operations')
+      bounds='<= 4 (thorough 5) operations from the empty dispatcher; alphabet of 9 operations')
 
 
 def l202(server):
